@@ -18,7 +18,11 @@ OUTSIDE = ["mixed-style operations (list-style mutators on dict-declared selecto
 ASSUMPTIONS = ["indices in [-n-1, n+1]; objects are unique strings from a pool of 8; keys from a pool of 5",
                "check_on_set=True (objects supplied at declaration)"]
 
-OBJS = ['A', 'B', 'C', 'D', 'E', 'F', 'G', 'H', 'I', 'J', 'K']
+OBJS = [('A',), ('B',), ('C',), ('D',), ('E',), ('F',), ('G',), ('H',), ('I',), ('J',), ('K',)]      # objects with equal-but-distinct copies
+
+
+def _fresh(o):
+    return tuple(list(o))
 KEYS = ['k0', 'k1', 'k2', 'k3', 'k4', '']      # the empty string is a legitimate (falsy) name
 N_LIST_OPS = 10
 N_DICT_OPS = 8
@@ -39,11 +43,11 @@ def prog(style: int, kind: int, level: int, k: int, cos: bool,
     with untraced():
         cls = param.Selector if kind == 0 else param.ListSelector
         if style == 0:
-            init = ['A', 'B', 'C']
+            init = [OBJS[0], OBJS[1], OBJS[2]]
             model = [(None, x) for x in init]
             decl = list(init)
         else:
-            decl = OrderedDict([('k0', 'A'), ('k1', 'B'), ('k2', 'C')])
+            decl = OrderedDict([('k0', OBJS[0]), ('k1', OBJS[1]), ('k2', OBJS[2])])
             model = list(decl.items())
 
         class P(param.Parameterized):
@@ -61,6 +65,7 @@ def prog(style: int, kind: int, level: int, k: int, cos: bool,
         ncev = len(changed_events)
         before = list(model)
         mutation = True
+        noop = False
         res = exp = None
         if style == 0:
             cover('list.op%d' % pick(o, 0, nops - 1))
@@ -87,7 +92,7 @@ def prog(style: int, kind: int, level: int, k: int, cos: bool,
                 exp = _exc(lambda: model.pop()[1])
             elif o == 6:
                 assume(0 <= i <= fresh)
-                target = OBJS[pick(i, 0, fresh)]      # OBJS[fresh] was never inserted
+                target = _fresh(OBJS[pick(i, 0, fresh)])      # an equal copy; OBJS[fresh] was never inserted
                 res = _exc(lambda: sel.objects.remove(target))
                 exp = _exc(lambda: model.remove((None, target)))
             elif o == 7:
@@ -128,19 +133,30 @@ def prog(style: int, kind: int, level: int, k: int, cos: bool,
                         model.append((kk2, oo2))
                 exp = ('ok', None)
             elif o == 2:
-                res = _exc(lambda: sel.objects.pop(key))
                 ks = [kk for kk, _ in model]
-                if key in ks:
-                    exp = ('ok', model.pop(ks.index(key))[1])
+                if i >= 0:
+                    res = _exc(lambda: sel.objects.pop(key))
+                    if key in ks:
+                        exp = ('ok', model.pop(ks.index(key))[1])
+                    else:
+                        exp = ('exc', 'KeyError')
                 else:
-                    exp = ('exc', 'KeyError')
+                    # two-argument form: a missing key returns the default (here: an object that is in the list) and
+                    # changes nothing
+                    dflt = model[0][1] if model else OBJS[0]
+                    res = _exc(lambda: sel.objects.pop(key, dflt))
+                    if key in ks:
+                        exp = ('ok', model.pop(ks.index(key))[1])
+                    else:
+                        exp = ('ok', dflt)
+                        noop = True        # nothing changes: no event is required
             elif o == 3:
                 assume(-n - 1 <= i <= n)
                 res = _exc(lambda: sel.objects.pop(i))
                 exp = _exc(lambda: model.pop(i)[1])
             elif o == 4:
                 assume(0 <= i <= fresh)
-                target = OBJS[pick(i, 0, fresh)]
+                target = _fresh(OBJS[pick(i, 0, fresh)])        # an equal copy of the stored object
                 res = _exc(lambda: sel.objects.remove(target))
                 vs = [vv for _, vv in model]
                 if target in vs:
@@ -165,7 +181,8 @@ def prog(style: int, kind: int, level: int, k: int, cos: bool,
                 check('C18.same_exception', res[0] == 'ok', dict(info, res=res))
                 if (style == 0 and o in (4, 5)) or (style == 1 and o in (2, 3)):
                     check('C18.pop_returns', res[1] == exp[1], dict(info, popkind=('int' if (style == 0 or o == 3) else 'key')))
-                check('C18.one_event', len(events) == nev + 1, dict(info, n=len(events) - nev))
+                if not noop:
+                    check('C18.one_event', len(events) == nev + 1, dict(info, n=len(events) - nev))
                 if model != before and (style == 0 or all(kk is not None for kk, _ in list(model) + list(before))):
                     # a changes-only watcher is told about every mutation that changes the objects (when every object
                     # has a name: with unnamed, auto-added objects the event payload is the name mapping, which need not change)
@@ -205,11 +222,11 @@ def prog(style: int, kind: int, level: int, k: int, cos: bool,
             check('C18.names_view', list(sel.names.items()) == named if named else not sel.names, info)
             if named:
                 check('C18.items_view', list(sel.objects.items()) == named, info)
-            check('C18.range_view', list(sel.get_range().items()) == [(kk if kk is not None else vv, vv) for kk, vv in model], info)
+            check('C18.range_view', list(sel.get_range().items()) == [(kk if kk is not None else str(vv), vv) for kk, vv in model], info)
         else:
             check('C18.names_view', not sel.names, info)
-            check('C18.items_view', list(sel.objects.items()) == [(x, x) for x in objs], info)
-            check('C18.range_view', list(sel.get_range().items()) == [(x, x) for x in objs], info)
+            check('C18.items_view', list(sel.objects.items()) == [(str(x), x) for x in objs], info)      # unnamed objects are listed under str(object)
+            check('C18.range_view', list(sel.get_range().items()) == [(str(x), x) for x in objs], info)
 
 
 def _ranges(consts):
